@@ -153,11 +153,12 @@ def ftolTest (opts : Opts α) (o : Obs α) (rho : Rho α) : Bool :=
   !decide (IsZero o.rn) && decide (Scalar.abs (actuRed o) < opts.ftol) && decide (predRed o < opts.ftol)
     && rho.le (nat 2)
 
-/-- ONE-LINE SWITCH for a pending repair of optim.hpp: `false` = the code as it is (a zero residual
-    `r_n == 0` does not stop the loop: with `ptol = 0` it runs on, `Δ` shrinks every iteration until
-    `1/Δ` overflows in `double` and NaN is accepted — known finding KF-C09-zero-residual-ptol0-delta-underflow);
-    `true` = the repaired loop, where an accepted iteration with `r_n == 0` sets `status = Ftol`:
-    `if (r_n == 0 || (std::abs(actu_red) < opts.ftol && pred_red < opts.ftol && rho <= 2.))`. -/
+/-- ONE-LINE SWITCH tracking the repair of optim.hpp (/repo commit 04fbd01 "minimize treats an exactly zero
+    residual as converged"): `true` = the repaired loop, where an accepted iteration with `r_n == 0` sets
+    `status = Ftol`: `if (r_n == 0 || (std::abs(actu_red) < opts.ftol && pred_red < opts.ftol && rho <= 2.))`;
+    `false` = the code before the repair (a zero residual did not stop the loop: with `ptol = 0` it ran on, `Δ`
+    shrank every iteration until `1/Δ` overflowed in `double` and a NaN step was accepted by the `r_n == 0` clause).
+    The theorems of C09 are stated so that they hold for either value; the T1 replay tells which one the code is. -/
 def zeroResidualConverged : Bool := true
 
 /-- `d.cwiseProduct(dx).stableNorm() < ptol * static_cast<double>(dx.size())` -/
